@@ -71,6 +71,21 @@ CLAIMED = {
         design='5.6 C15', technique='Coq refinement proof (simulation over operation histories) + differential histories',
         note=COMMON_NOTE + ' functools.singledispatch is reduced to "nearest class of the C3 MRO with a registry entry" '
              '(no ABCs in the lattice); MROs are computed by CPython and passed to the model.'),
+    'C02': dict(
+        text='Theorems C02_escape_direct, C02_escape_roundtrip, C02_split_join, C02_split_total, C02_pieces '
+             '(Proofs/StrEscape.v, StrSplit.v, StrTotal.v, StrPieces.v): for every str (all code points) and bytes, '
+             'either quote and every instantiation of the Unicode classes, repr()+textual re-quoting equals '
+             'character-wise escaping and decodes back to the value under the literal-decoding specification '
+             'PyLit.literal_value; the splitter (exact model of the generator loop incl. re.split) concatenates back '
+             'to the value, yields no empty piece, and terminates for every positive max_len within 6 len+16 '
+             'iterations (it diverges for max_len = 0: witness); at every indent/column/page/ribbon and each of the '
+             'four strategies + subclass wrapper the evaluator returns >= 1 pieces concatenating to the value. Tied '
+             'to the code by comparing determine_quote_strategy / escape_str_for_quote / str_to_lines and pformat in '
+             '6 placements with the extracted model; literal_value is validated against ast.literal_eval.',
+        design='5.2 C02', technique='Coq proofs (invariants of the splitter loop, chunk-wise analysis of str.replace, hex round trip) + differential correspondence',
+        note=COMMON_NOTE + ' Parameters, not axioms: str.isprintable / re \\s / re \\w tables of the running interpreter. '
+             'Annotation granularity inside a literal (highlight_escapes) is not modelled. CPython repr() of str/bytes is '
+             'modelled from unicode_repr/PyBytes_Repr and compared on every generated string.'),
 }
 
 PENDING = 'check not built yet in this round (see DESIGN.md section 8 for the order of work)'
